@@ -5,7 +5,7 @@ from common import *  # noqa
 import framework as fw
 import rtbuild
 
-MODULE = ["LWV.Props.C09", "LWV.Props.C09Full", "LWV.Props.C02Full"]
+MODULE = ["LWV.Props.C09", "LWV.Props.C09Full", "LWV.Props.C02Full", "LWV.Props.C09Rssi"]
 
 
 def hexs(b):
